@@ -85,7 +85,11 @@ class Gen(object):
         r = self.rng
         if r.random() < p_adv:
             self.n += 1
-            return r.choice([u'n%d' % self.n, u'']) + self.advstr(2) + r.choice([u'', u'.1', u' b'])
+            # no blank and no colon: odfpy's load() rewrites those in style:name (make_NCName) but not in the references
+            nm = (r.choice([u'n%d' % self.n, u'']) + self.advstr(2) + r.choice([u'', u'.1', u'_b'])).replace(u' ', u'').replace(u':', u'') or u'e'
+            if u']]>' in nm and r.random() < 0.85:
+                nm = nm.replace(u']]>', u']]')
+            return nm
         if plain_pool and r.random() < 0.5:
             return r.choice(plain_pool)
         self.n += 1
@@ -105,7 +109,7 @@ class Gen(object):
                 parent = r.choice(store) if (r.random() < 0.25) else None
                 out.append({'fam': fam, 'name': nm, 'auto': r.random() < 0.5, 'parent': parent,
                             'bold': r.random() < 0.3, 'italic': r.random() < 0.3,
-                            'color': r.choice([None, None, u'#ff0000', u'red]]>', u'</style><b>', u'a;b:c']),
+                            'color': r.choice([None, None, None, u'#ff0000', u'#00ff00', u'</style><b>', u'a;b:c', u'&lt;', u'red]]>' if r.random() < 0.2 else u'red]]']),
                             'margin': r.choice([None, None, u'1cm', u'0cm'])})
         ls = []
         for _ in range(r.randint(0, 2)):
@@ -195,7 +199,9 @@ class Gen(object):
 
     def heading(self, depth, innote=False):
         r = self.rng
-        lvl = r.choice([1, 1, 2, 3, 4, 5, 6, 7, 10, 12, None])
+        lvl = r.choice([1, 1, 2, 3, 4, 5, 6, 7, 10, 12])
+        if r.random() < 0.02:
+            lvl = None
         if lvl is None:
             self.feat.add('h-nolevel')
         elif lvl >= 4:
@@ -304,17 +310,15 @@ def neutral_str(s, table):
 
 
 def neutral(x, table=None):
-    """the same description with every adversarial string replaced"""
+    """the same description with every adversarial string replaced (structural keywords are over the safe alphabet)"""
     if table is None:
         table = {}
     if isinstance(x, str):
         return neutral_str(x, table)
     if isinstance(x, list):
-        if x and x[0] in ('s',):
-            return list(x)
-        return [x[0]] + [neutral(y, table) for y in x[1:]] if (x and isinstance(x[0], str) and x[0] in TAGS) else [neutral(y, table) for y in x]
+        return [neutral(y, table) for y in x]
     if isinstance(x, dict):
-        return dict((k, (v if k in ('kind', 'fam', 'levels', 'rs', 'cs', 'auto', 'bold', 'italic') else neutral(v, table))) for k, v in x.items())
+        return dict((k, neutral(v, table)) for k, v in x.items())
     return x
 
 
@@ -482,7 +486,9 @@ def visible(spec):
     """document order list of events of the source:
          ('r', text, par, flags)   a text run; `par` identifies the enclosing paragraph/heading;
                                    flags = names of the known-finding classes the run falls into
-         ('sep', kind, c)          text:s / text:tab / text:line-break
+         ('sep', kind, c, pending, wsinline)   text:s / text:tab / text:line-break; pending = character data of the
+                                   same run is still unwritten when a text:s arrives (XHTML finding class); wsinline = inside a
+                                   span/link whose whole content is white space (MoinMoin finding class)
          ('io',)                   an inline element boundary (span, link, bookmark-ref)
          ('x',)                    anything else that may legitimately put output between two runs
        note bodies are returned separately (they may move to the end)."""
@@ -490,21 +496,33 @@ def visible(spec):
     par_counter = [0]
     heads = []
 
-    def inl(items, out, par, flags, pend):
+    def wsonly(items):
+        for it in items:
+            if it[0] == 't':
+                if it[1].strip() != u'':
+                    return False
+            elif it[0] == 'span' or it[0] == 'a':
+                if not wsonly(it[2]):
+                    return False
+            elif it[0] not in ('s', 'tab', 'bm', 'bms', 'bme'):
+                return False
+        return True
+
+    def inl(items, out, par, flags, pend, wsin=False):
         for it in items:
             k = it[0]
             if k == 't':
                 out.append(['r', it[1], par, set(flags)]); pend.append(out[-1])
             elif k in ('span', 'a'):
                 del pend[:]
-                out.append(('io',)); inl(it[2], out, par, flags, pend); out.append(('io',))
+                out.append(('io',)); inl(it[2], out, par, flags, pend, wsin or wsonly(it[2])); out.append(('io',))
                 del pend[:]
             elif k == 's':
-                out.append(('sep', 's', 1 if it[1] is None else it[1], bool([p for p in pend if p[1].strip() != u''])))
+                out.append(('sep', 's', 1 if it[1] is None else it[1], bool([p for p in pend if p[1].strip() != u'']), wsin))
             elif k == 'tab':
-                del pend[:]; out.append(('sep', 'tab', 1, False))
+                del pend[:]; out.append(('sep', 'tab', 1, False, wsin))
             elif k == 'br':
-                del pend[:]; out.append(('sep', 'br', 1, False))
+                del pend[:]; out.append(('sep', 'br', 1, False, wsin))
             elif k in ('bm', 'bms'):
                 del pend[:]; out.append(('x',))
             elif k == 'bme':
@@ -516,8 +534,6 @@ def visible(spec):
                 del pend[:]
                 out.append(('x',))
                 nb = []
-                if it[2] == u'':
-                    flags = flags | set(['m-note-empty-citation'])
                 first = True
                 for b in it[3]:
                     f2 = set(flags)
